@@ -11,6 +11,13 @@ extern "C" {
 #include <yara/compiler.h>
 }
 
+// the scan-time trycatch bookkeeping is process-wide: a limit error must leave it as it found it
+extern "C" int exception_handler_usecount __attribute__((weak));
+#include <signal.h>
+struct HandlerState { void* bus; void* segv; int usecount; };
+static HandlerState handler_state() { struct sigaction b, s; sigaction(SIGBUS, NULL, &b); sigaction(SIGSEGV, NULL, &s); return {(void*) b.sa_sigaction, (void*) s.sa_sigaction, &exception_handler_usecount ? exception_handler_usecount : 0}; }
+static std::string handler_diff(const HandlerState& a, const HandlerState& b) { if (a.bus != b.bus || a.segv != b.segv || a.usecount != b.usecount) return "exception-handler-state-not-restored"; return ""; }
+
 // ------------------------------------------------------------ (a) timeouts ---
 struct Work { const char* name; const char* kind; std::string rules; std::function<std::string(int)> buffer; std::function<std::string(int)> rules_at; };
 // scale s = 0,1,2,3 -> sizes x1, x4, x16, x64
@@ -89,7 +96,9 @@ static void run_time_work(const Work& w, int wi, bool thorough, uint64_t seed, S
     else { Rng rng(sim_run_seed(seed, wi * 10 + s)); js.push_back(2); js.push_back(R); for (int64_t k = 0; k < cap; k++) js.push_back(2 + (int64_t) rng.below(R - 1)); }
     if (only_scale >= 0 && only_scale != s) js.clear();
     for (int64_t j : js) {
+      HandlerState hs0 = handler_state();
       TimedOut o = timed_scan(rules, buf, 60, j, 0);
+      { std::string hd = handler_diff(hs0, handler_state()); if (!hd.empty()) { J r3 = rp; r3.set("j", j); emit_c15("unusable-after-timeout", std::string("time|") + w.kind + "|" + hd, std::string(w.name) + ": after a scan that timed out: " + hd, r3, reported, st); } }
       st.runs++; st.c["faults_fired.clock_jump_past_deadline"]++; st.c["sim_time_ns"] += 61LL * 1000000000LL;
       Hash64 h; h.add(w.name); h.addu(s); h.addu(j); st.hash(h.h);
       J r2 = rp; r2.set("j", j);
@@ -145,11 +154,12 @@ static void run_limit_case(uint64_t seed, int64_t i, Stats& st, std::set<std::st
   J rp = J::obj(); rp.set("engine", "sim_clock"); rp.set("mode", "limits"); rp.set("seed", (int64_t) seed); rp.set("case", i);
   Recorder ref; int rc0 = yr_rules_scan_mem(without, (const uint8_t*) buf.data(), buf.size(), 0, recorder_callback, &ref, 0);
   for (int reply : {CALLBACK_CONTINUE, CALLBACK_ABORT, CALLBACK_ERROR}) {
-    Recorder rec; rec.too_many_reply = reply;
+    Recorder rec; rec.too_many_reply = reply; HandlerState hs0 = handler_state();
     int64_t w0 = g_bb_count; (void) w0;
     int rc = yr_rules_scan_mem(with, (const uint8_t*) buf.data(), buf.size(), 0, recorder_callback, &rec, 0);
     st.runs++; st.c[reply == CALLBACK_CONTINUE ? "faults_fired.too_many_matches_continue" : "faults_fired.too_many_matches_abort_or_error"] += rec.too_many;
     Hash64 h; h.add("lim"); h.addu(i); h.addu(reply); st.hash(h.h);
+    { std::string hd = handler_diff(hs0, handler_state()); if (!hd.empty()) emit_c15("unusable-after-limit", "limits|" + hd, "after a scan that hit the match limit (rc " + std::string(yr_error_name(rc)) + "): " + hd, rp, reported, st); }
     if (!rec.too_many) { st.c["probe.limit_not_reached"]++; continue; }
     std::string rn = reply == CALLBACK_CONTINUE ? "continue" : reply == CALLBACK_ABORT ? "abort" : "error";
     if (reply == CALLBACK_CONTINUE) {
@@ -195,8 +205,9 @@ static void run_scanner_after_limit(Stats& st, std::set<std::string>& reported) 
   for (auto& l : ls) {
     if (l.stack) yr_set_configuration_uint32(YR_CONFIG_STACK_SIZE, l.stack);
     YR_RULES* r = compile_simple(l.rules);
-    YR_SCANNER* sc = NULL; yr_scanner_create(r, &sc);
+    YR_SCANNER* sc = NULL; yr_scanner_create(r, &sc); HandlerState hs0 = handler_state();
     Recorder r1; yr_scanner_set_callback(sc, recorder_callback, &r1); int rc1 = yr_scanner_scan_mem(sc, (const uint8_t*) l.bomb.data(), l.bomb.size());
+    std::string hd = handler_diff(hs0, handler_state());
     Recorder r2; yr_scanner_set_callback(sc, recorder_callback, &r2); int rc2 = yr_scanner_scan_mem(sc, (const uint8_t*) l.benign.data(), l.benign.size());
     yr_scanner_destroy(sc);
     Recorder r3; int rc3 = yr_rules_scan_mem(r, (const uint8_t*) l.benign.data(), l.benign.size(), 0, recorder_callback, &r3, 0);
@@ -206,6 +217,7 @@ static void run_scanner_after_limit(Stats& st, std::set<std::string>& reported) 
     Hash64 h; h.add("after-limit"); h.add(l.name); st.hash(h.h);
     J rp = J::obj(); rp.set("engine", "sim_clock"); rp.set("mode", "limits"); rp.set("boundary", "@scanner-after-limit");
     if (rc1 == ERROR_SUCCESS) st.c["probe.scan_limit_not_reached"]++;
+    if (!hd.empty()) emit_c15("unusable-after-limit", std::string("boundary|") + l.name + "|" + hd, std::string(l.name) + ": scan returned " + yr_error_name(rc1) + " and left the process-wide exception handler state changed: " + hd, rp, reported, st);
     if (rc2 != rc3 || r2.text != r3.text) emit_c15("unusable-after-limit", std::string("boundary|") + l.name + "|same-scanner-unusable-afterwards", std::string(l.name) + ": first scan returned " + yr_error_name(rc1) + "; the next scan of harmless data on the same scanner returned " + yr_error_name(rc2) + ", a fresh scanner " + yr_error_name(rc3), rp, reported, st);
   }
 }
